@@ -5,7 +5,8 @@ props = {json.loads(l)["id"]: json.loads(l) for l in open("/verif/properties.jso
 for pid in sys.argv[1:]:
     wt = "/tmp/seed/%s" % pid
     if not os.path.exists(wt):
-        subprocess.check_call(["git", "-C", "/repo", "worktree", "add", "--detach", wt, "HEAD"], stdout=subprocess.DEVNULL, stderr=subprocess.DEVNULL)
+        # an independent clone (worktrees of one repository share refs/stash, which made concurrent agents pop each other's stashes)
+        subprocess.check_call(["git", "clone", "-q", "/repo", wt], stdout=subprocess.DEVNULL, stderr=subprocess.DEVNULL)
     os.makedirs("/tmp/seed/%s_out" % pid, exist_ok=True)
     p = props[pid]
     print("=== %s\nTITLE: %s\nSTATEMENT: %s\nQUANTIFIER: %s\nFILES: %s\n" % (pid, p["title"], p["statement"], p["quantifier"]["text"], ", ".join(p["anchors"]["files"])))
